@@ -97,6 +97,21 @@ def _cases(tier, rng):
             ids2 = ([rng.randint(1, 30000) for _ in nets.pits(ds2)] if hasids else []) if mode == "default" else ids
             yield {"k": 503, "args": [ds2, [], outs, [int(hasids)], ids2], "call": {"mode": mode, "dtype": dt, "from": ds, "addpits": added},
                    "group": f"rand-api-{mode}-after-add-pits"}
+        # objects PARSED from D8 / LDD rasters whose streams also leave the raster or end at missing cells: those outlets are pits
+        # with basins and basin outlets like the explicitly coded ones (round-6 seed)
+        if t % 3 == 0:
+            nr_, nc_ = rng.randint(1, 6), rng.randint(2, 6)
+            codes = nets.random_d8_raster(rng, nr_, nc_, p_nodata=rng.choice([0, 0.15]), loopfree=True)
+            for i in range(nr_ * nc_):
+                r_, c_ = divmod(i, nc_)
+                if codes[i] != 247 and rng.random() < 0.3:
+                    off = [cd for (dr, dc), cd in nets.D8.items() if not (0 <= r_ + dr < nr_ and 0 <= c_ + dc < nc_)]
+                    if off:
+                        codes[i] = rng.choice(off)
+            dsr = nets.d8_decode(codes, nr_, nc_)
+            if nets.pits(dsr):
+                yield {"k": 503, "args": [dsr, [], [], [0], []], "call": {"mode": "default", "dtype": 3, "raster": {"nr": nr_, "nc": nc_, "codes": codes, "ftype": rng.choice(["d8", "ldd"])}},
+                       "group": "rand-api-default-parsed"}
         # region outlets on arbitrary label maps
         regions = [rng.choice([0, 1, 2, 3]) if ds[i] >= 0 or rng.random() < 0.5 else 0 for i in range(n)]
         yield {"k": 502, "args": [ds, regions, nets.topo_order(ds, rng)], "group": "rand-region-outlets"}
@@ -131,6 +146,13 @@ def impl(case):
             flw = make_raster(call["from"])
             call_impl(flw.basins)
             call_impl(flw.add_pits, idxs=np.array(call["addpits"]))
+        elif call.get("raster"):
+            import pyflwdir
+            rs = call["raster"]
+            cds_ = rs["codes"]
+            if rs["ftype"] == "ldd":
+                cds_ = [{1: 6, 2: 3, 4: 2, 8: 1, 16: 4, 32: 7, 64: 8, 128: 9, 0: 5, 255: 5, 247: 255}[c] for c in cds_]
+            flw = pyflwdir.from_array(np.array(cds_, dtype=np.uint8).reshape(rs["nr"], rs["nc"]), ftype=rs["ftype"])
         else:
             flw = make_raster(ds)
         dt = DTYPES[call["dtype"]]
